@@ -2,5 +2,5 @@ SPECIFICATION Spec
 CONSTANTS
   Scripts <- ScriptsFamily
   Variant = "code"
-INVARIANTS TypeOK Inv_ChainIntact Inv_FinishedWhole Inv_QuiescentConsistent
+INVARIANTS TypeOK Inv_ChainIntact Inv_FinishedWhole Inv_DkgDbConsistent Inv_QuiescentConsistent
 CHECK_DEADLOCK FALSE
